@@ -3,6 +3,7 @@
 -/
 import J1939.Lemmas.Trace21
 import J1939.Lemmas.Dll21Tick
+import J1939.Lemmas.Trace22
 namespace J1939.Props.C06
 open J1939 J1939.Gen J1939.Dll21
 
@@ -80,5 +81,56 @@ theorem c06_timeouts : Const.T21.T1 ≤ 1250000 ∧ Const.T21.T2 ≤ 1250000 ∧
 theorem c06_followup (now : Nat) (s : St) (k : Nat) :
     ({ s with rcv := s.rcv.erase k } : St).rcv.contains k = false ∧ ({ s with snd := s.snd.erase k } : St).snd.contains k = false :=
   ⟨PyDict.contains_erase_self _ _, PyDict.contains_erase_self _ _⟩
+
+end J1939.Props.C06
+
+/-! ## J1939-22 (FD) -/
+namespace J1939.Props.C06
+open J1939 J1939.Gen J1939.Dll22
+
+/-- J1939-22, A SEGMENT OUT OF ORDER IS IGNORED: an FD.TP.DT frame whose segment number is not the one the record
+    expects next (a segment was lost, duplicated or reordered) changes nothing and emits nothing — so after a lost segment
+    the record never grows again -/
+theorem c06_22_out_of_order_ignored (s : St) (now : Nat) (mid : MessageId) (dest : Nat) (f : List Nat) (r : Rcv)
+    (hr : s.rcv.get? (Tp22.buffer_hash (Tp22.dt_session f) mid.source_address dest) = some r)
+    (hne : r.nextPacket ≠ Tp22.dt_segment f) :
+    processDt s now mid dest f = { st := s } := by
+  unfold processDt
+  have : (r.nextPacket != Tp22.dt_segment f) = true := by simpa using hne
+  simp only [hr, this, if_true]
+  split
+  · rfl
+  · split <;> rfl
+
+/-- J1939-22, NEVER A TRUNCATED MESSAGE (repair of D4): the end-of-message status hands a message up only when the
+    record holds EXACTLY the announced number of bytes and the announced size and segment count are the ones of the
+    session; in every other case the session is aborted (reason 2), nothing is handed up, nothing is acknowledged, and
+    the record is removed -/
+theorem c06_22_eom_exact_or_nothing (cfg : Cfg) (s : St) (now : Nat) (mid : MessageId) (dest : Nat) (f : List Nat) (r : Rcv)
+    (hlen : 12 ≤ f.length) (hc : Tp22.cm_control f = Const.CM22.EOM_STATUS)
+    (hr : s.rcv.get? (Tp22.buffer_hash (Tp22.cm_session f) mid.source_address dest) = some r) :
+    (deliveries (processCm cfg s now mid dest f).outs ≠ [] →
+        r.data.length = r.messageSize ∧ r.messageSize = Tp22.cm_size f ∧ r.numSegments = Tp22.cm_segment f ∧
+        deliveries (processCm cfg s now mid dest f).outs = [(mid.priority, r.pgn, mid.source_address, dest, r.data)]) ∧
+    (¬ (r.messageSize = Tp22.cm_size f ∧ r.numSegments = Tp22.cm_segment f ∧ r.data.length = Tp22.cm_size f) →
+        (processCm cfg s now mid dest f).outs = [.tx (Tp22.abort dest mid.source_address (Tp22.cm_session f) Const.Abort22.RESOURCES r.pgn)]) ∧
+    (processCm cfg s now mid dest f).st.rcv.get? (Tp22.buffer_hash (Tp22.cm_session f) mid.source_address dest) = none := by
+  have hl : ¬ f.length < 12 := by omega
+  have c1 : (Const.CM22.EOM_STATUS == Const.CM22.RTS) = false := by decide
+  have c2 : (Const.CM22.EOM_STATUS == Const.CM22.CTS) = false := by decide
+  unfold processCm
+  simp only [hl, if_false, hc, c1, c2, Bool.false_eq_true, hr, beq_self_eq_true, if_true]
+  by_cases hok : (r.messageSize == Tp22.cm_size f && r.numSegments == Tp22.cm_segment f && r.data.length == Tp22.cm_size f) = true
+  · simp only [hok, if_true]
+    simp only [Bool.and_eq_true, beq_iff_eq] at hok
+    obtain ⟨⟨h1, h2⟩, h3⟩ := hok
+    refine ⟨fun _ => ⟨by omega, h1, h2, ?_⟩, fun hn => absurd ⟨h1, h2, h3⟩ hn, PyDict.get?_erase_self _ _⟩
+    split <;> simp [deliveries]
+  · have hok' : (r.messageSize == Tp22.cm_size f && r.numSegments == Tp22.cm_segment f && r.data.length == Tp22.cm_size f) = false := by
+      cases h : (r.messageSize == Tp22.cm_size f && r.numSegments == Tp22.cm_segment f && r.data.length == Tp22.cm_size f) with
+      | false => rfl
+      | true => exact absurd h hok
+    simp only [hok', Bool.false_eq_true, if_false]
+    exact ⟨fun h => absurd (by simp [deliveries]) h, fun _ => trivial, PyDict.get?_erase_self _ _⟩
 
 end J1939.Props.C06
